@@ -167,7 +167,7 @@ def nontrivial(e):
 
 def check(tier, seed):
     return base.standard_check(PID, tier, seed, tasks(tier, seed), MODELS[tier], RULE, nontrivial, matchers=MATCHERS,
-                               assumptions=["<= 7 states", "a call that does not return within %.0f s is reported as "
+                               assumptions=["<= 7 states", "a call that uses more than %.0f s of CPU time is reported as "
                                             "non-terminating (such calls return in < 1 ms when they terminate)" % LIMIT])
 
 
